@@ -382,7 +382,10 @@ class Polynomial:
             self.coefficients[None, ...] * polynomials, axis=tuple(np.array(axes) + 1)
         )
         if singlePoint:
-            return float(result[0])
+            if np.ndim(result[0]) == 0:
+                return float(result[0])
+            # Evaluated along a subset of the axes: the other axes remain
+            return np.array(result[0])
         return np.array(result)
 
     def cardinal(
